@@ -143,6 +143,8 @@ CHECKS = {
             dict(REPOPKG, entries=["H18Index"], bounds_quick={"entries": 2, "shapes": 8, "maxdigit": 3}, bounds_thorough={"entries": 3, "shapes": 8, "maxdigit": 3}),
             dict(pkg="./pkg/storage/driver", files=["pkg/storage/driver/h_c10_backends.go"], entries=["H20Corrupt"]),
             dict(pkg="./pkg/chart/v2/util", files=["pkg/chart/v2/util/h_c20_import.go"], entries=["H20Import"], bounds_quick={"entries": 1}, bounds_thorough={"entries": 2}),
+            dict(pkg="./pkg/storage/driver", files=["pkg/storage/driver/h_c20_decode.go"], entries=["H20Decode"], bounds_quick={"payload": 5}, bounds_thorough={"payload": 7}),
+            dict(pkg="./pkg/ignore", files=["pkg/ignore/h_c15_ignore.go"], entries=["H15Ignore"], bounds_quick={"linelen": 3, "pathlen": 2}, bounds_thorough={"linelen": 4, "pathlen": 3}),
         ],
         "bounds": {},
         "assumptions": [],
